@@ -441,10 +441,16 @@ def build_from_product_mps_covering(ctx, rng, i):
         ref = np.multiply.outer(ref, v)
         axes.extend(g)
     ref = np.transpose(ref, np.argsort(axes))
-    v = check_state(ctx, 'from_product_mps_covering', psi, ref, case, phase_free=any(is_f for is_f in [dense.is_fermionic(s) for s in sites]))
+    interleaved = any(any(a < x < b for g2 in groups if g2 is not g for x in g2) for g in groups if len(g) > 1 for a, b in zip(g[:-1], g[1:]))
+    entangled = any(lp.L > 1 and max(lp.chi) > 1 for lp in local)
+    # mechanism of the recorded finding: the bond legs of local MPS passing over each other are fused into *sorted* pipes, and the two
+    # tensors sharing a bond fuse different sets of (trivial) legs, so the orders of their combined indices can differ (an error is
+    # raised if the charges differ, the state is silently wrong if they agree)
+    name_ = 'from_product_mps_covering:interleaved-entangled-local-mps' if (interleaved and entangled) else 'from_product_mps_covering'
+    v = check_state(ctx, name_, psi, ref, case, phase_free=any(is_f for is_f in [dense.is_fermionic(s) for s in sites]))
     if v is None:
         return
-    check_canonical(ctx, 'from_product_mps_covering', psi, v, case)
+    check_canonical(ctx, name_, psi, v, case)
     ctx.sig(('covering', kind, L, tuple(groups)), nontrivial=any(len(g) > 1 for g in groups))
     if i % 150 == 0:
         ctx.sample(case)
